@@ -102,6 +102,8 @@ def build_system(ctx, shape, assume_nonneg=True, sysname="sys", rt="none"):
                 ctx.assume(v > 0)
             _nice(ctx, v, k, kind, idx, pol)
         ctx.assume(spec.valid(kind, P))
+        if kind == "RectD" and hasattr(P.get("vdrop"), "t"):
+            ctx.assume(P["vdrop"] > 0)  # vdrop == 0 selects the MOSFET bridge (kind RectM)
         try:
             comp = construct(kind, name, P, limits=nd.get("limits"))
         except ValueError as e:
